@@ -15,7 +15,7 @@ open EM
 structure CoreWF (cfg : EdCfg) (c : CoreNC) : Prop where
   line : WF c.line
   saved : WF c.saved
-  idx : c.histIdx ≤ cfg.hist.length
+  idx : c.histIdx ≤ histLen cfg
   ring : RingOK c.ring
 
 def EdWF (cfg : EdCfg) (s : Ed) : Prop := CoreWF cfg s.coreNC
@@ -26,7 +26,7 @@ theorem EdWF.of_core {cfg : EdCfg} {s s' : Ed} (h : EdWF cfg s) (hc : s'.core = 
 theorem EdWF.of_coreNC {cfg : EdCfg} {s s' : Ed} (h : EdWF cfg s) (hc : s'.coreNC = s.coreNC) : EdWF cfg s' := by
   unfold EdWF; rw [hc]; exact h
 
-theorem EdWF.mk' {cfg : EdCfg} {s : Ed} (h1 : WF s.line) (h2 : WF s.saved) (h3 : s.histIdx ≤ cfg.hist.length)
+theorem EdWF.mk' {cfg : EdCfg} {s : Ed} (h1 : WF s.line) (h2 : WF s.saved) (h3 : s.histIdx ≤ histLen cfg)
     (h4 : RingOK s.ring) : EdWF cfg s := ⟨h1, h2, h3, h4⟩
 
 /-- a line-buffer operation that is total on well-formed buffers and keeps them well formed -/
